@@ -116,6 +116,8 @@ def collect(prog, target_id):
             for pn, pty, isarr in p['params']:
                 if isarr:
                     loc.arrays[pn] = (pty, None)
+                elif pty.startswith('T:'):
+                    loc.records[pn] = pty
                 else:
                     loc.scalars[pn] = pty
             if scan(p['body'], loc, target_id):
